@@ -1,5 +1,5 @@
 """Shared machinery for ./check: builds, Lean audit, driver, correspondence, findings, evidence."""
-import fcntl, json, os, re, subprocess, sys, time, hashlib, shutil, tempfile
+import hashlib, fcntl, json, os, re, subprocess, sys, time, hashlib, shutil, tempfile
 
 VERIF = os.path.dirname(os.path.dirname(os.path.abspath(__file__)))
 REPO = os.environ.get("VERIF_REPO", "/repo")
@@ -328,7 +328,11 @@ class Result:
     def finish(self):
         wall = time.time() - self.t0
         os.makedirs(os.path.join(VERIF, "evidence"), exist_ok=True)
-        os.makedirs(os.path.join(VERIF, "replays"), exist_ok=True)
+        # replays of runs against a scratch copy of the repository (VERIF_REPO) are kept apart
+        rdir = os.path.join(VERIF, "replays")
+        if os.environ.get("VERIF_REPO"):
+            rdir = os.path.join(rdir, "alt-" + hashlib.sha1(os.environ["VERIF_REPO"].encode()).hexdigest()[:10])
+        os.makedirs(rdir, exist_ok=True)
         exit_code = 0
         lines = []
         for sig, n in sorted(self.known.items()):
@@ -336,14 +340,14 @@ class Result:
             lines.append(f"KNOWN-FINDING: property={self.prop} {f['what']} [sig={sig}, seen {n}x]")
         if self.violations:
             v = self.violations[0]
-            path = os.path.join(VERIF, "replays", f"{self.prop}-{self.seed}-{self.tier}.json")
+            path = os.path.join(rdir, f"{self.prop}-{self.seed}-{self.tier}.json")
             json.dump({"property": self.prop, "kind": "failing-input", "sig": v["sig"], "what": v["what"],
                        "witness": v["witness"], "other_violations": len(self.violations) - 1,
                        "broken_ties": self.broken[:5]}, open(path, "w"), indent=1, ensure_ascii=False)
             lines.append(f"VIOLATION property={self.prop} replay={path}")
             exit_code = 1
         elif self.broken:
-            path = os.path.join(VERIF, "replays", f"{self.prop}-{self.seed}-{self.tier}.json")
+            path = os.path.join(rdir, f"{self.prop}-{self.seed}-{self.tier}.json")
             json.dump({"property": self.prop, "kind": "broken-obligation",
                        "no_longer_checks": [b["obligation"] for b in self.broken],
                        "details": self.broken[:10],
